@@ -300,6 +300,18 @@ async fn merge_corr(seed: u64, n: usize, rep: &mut Report, corr: &mut Corr) {
             Ok(AutoMergeStatus::PushRemote(v)) => format!("push-remote {}", show(&v.iter().map(|x| (crate::world::nanos(x.time()), x.event_bytes()[0])).collect())),
             Err(e) => format!("error {e}"),
         };
+        // C05 on the implementation: in the diverged branch the result is local ++ remote, stably sorted by time
+        if let Some(rest) = out.strip_prefix("push-remote ") {
+            let got: Vec<String> = if rest == "-" { vec![] } else { rest.split(',').map(|x| x.to_string()).collect() };
+            let mut want: Vec<(i128, u8, usize)> = l.iter().chain(r.iter()).enumerate().map(|(i, (t, b))| (*t, *b, i)).collect();
+            want.sort_by(|a, b| a.0.cmp(&b.0).then(a.2.cmp(&b.2)));
+            let want: Vec<String> = want.iter().map(|(t, b, _)| format!("{}/{:02x}", t, b)).collect();
+            if got != want {
+                let mut g = got.clone(); let mut w2 = want.clone(); g.sort(); w2.sort();
+                let class = if g != w2 { if g.len() < w2.len() { "c05-merge-patches-loses-records" } else { "c05-merge-patches-adds-records" } } else { "c05-merge-patches-wrong-order" };
+                rep.spec_fail(class, json!({"op": op, "got": got, "want": want}), "merge_patches result is not the stable time-sorted union of both suffixes");
+            }
+        }
         rep.count(out.split(' ').next().unwrap());
         rep.case(&op, !l.is_empty() && !r.is_empty());
         corr.ops.push(op);
